@@ -12,22 +12,26 @@ import (
 type Kind string
 
 const (
-	KCall          Kind = "call"           // API call about to be issued (client boundary)
-	KRet           Kind = "ret"            // API call returned
-	KNewRunner     Kind = "new-runner"     // createTaskRunner callback invoked for a job
-	KRunEnter      Kind = "run-enter"      // task runner accepted a task
-	KRunRefused    Kind = "run-refused"    // task runner refused a task (already canceled)
-	KRunExit       Kind = "run-exit"       // task finished inside the runner
-	KCancelEnter   Kind = "cancel-enter"   // runner.Cancel() called: tasks are told to stop
-	KCancelExit    Kind = "cancel-exit"    // runner.Cancel() returned
-	KFinish        Kind = "finish"         // runner.Finish()
-	KDelayEnter    Kind = "delay-enter"    // start delay handler entered (hook H2)
-	KDelayExit     Kind = "delay-exit"     // start delay handler returned (hook H2)
-	KCancelSpawned Kind = "cancel-spawned" // asynchronous cancel goroutine about to be started (hook H2)
-	KSaveBegin     Kind = "save-begin"     // DataStore.Save called
-	KSaveEnd       Kind = "save-end"       // DataStore.Save returned
-	KGateRelease   Kind = "gate-release"   // driver released a task gate
-	KNote          Kind = "note"           // driver annotation
+	KCall        Kind = "call"         // API call about to be issued (client boundary)
+	KRet         Kind = "ret"          // API call returned
+	KNewRunner   Kind = "new-runner"   // createTaskRunner callback invoked for a job
+	KRunEnter    Kind = "run-enter"    // task runner accepted a task
+	KRunRefused  Kind = "run-refused"  // task runner refused a task (already canceled)
+	KRunExit     Kind = "run-exit"     // task finished inside the runner
+	KCancelEnter Kind = "cancel-enter" // runner.Cancel() called: tasks are told to stop
+	// KIterAfterCancel: the first scheduler loop iteration of a job that began after its runner was told to stop (hook H1);
+	// Data holds the stage statuses that iteration saw (map[string]int32). The scheduler's stop flag is set before the
+	// runner is told to stop, so this iteration and all later ones must launch nothing.
+	KIterAfterCancel Kind = "iteration-after-cancel"
+	KCancelExit      Kind = "cancel-exit"    // runner.Cancel() returned
+	KFinish          Kind = "finish"         // runner.Finish()
+	KDelayEnter      Kind = "delay-enter"    // start delay handler entered (hook H2)
+	KDelayExit       Kind = "delay-exit"     // start delay handler returned (hook H2)
+	KCancelSpawned   Kind = "cancel-spawned" // asynchronous cancel goroutine about to be started (hook H2)
+	KSaveBegin       Kind = "save-begin"     // DataStore.Save called
+	KSaveEnd         Kind = "save-end"       // DataStore.Save returned
+	KGateRelease     Kind = "gate-release"   // driver released a task gate
+	KNote            Kind = "note"           // driver annotation
 )
 
 // Event is one entry of the append-only event log
@@ -49,10 +53,11 @@ type Event struct {
 
 // Log is an append-only event log with one atomic sequence counter. It is the only state of the monitors.
 type Log struct {
-	mu    sync.Mutex
-	seq   int64
-	start time.Time
-	evs   []Event
+	cancelEntered map[string]bool
+	mu            sync.Mutex
+	seq           int64
+	start         time.Time
+	evs           []Event
 }
 
 func NewLog() *Log {
@@ -65,8 +70,21 @@ func (l *Log) NextSeq() int64 {
 }
 
 // Add appends an event and returns its sequence number
+// CancelEntered reports whether a cancel-enter event was recorded for the job
+func (l *Log) CancelEntered(job string) bool {
+	l.mu.Lock()
+	defer l.mu.Unlock()
+	return l.cancelEntered[job]
+}
+
 func (l *Log) Add(e Event) int64 {
 	l.mu.Lock()
+	if e.Kind == KCancelEnter {
+		if l.cancelEntered == nil {
+			l.cancelEntered = map[string]bool{}
+		}
+		l.cancelEntered[e.Job] = true
+	}
 	e.Seq = atomic.AddInt64(&l.seq, 1)
 	e.T = time.Now()
 	e.Nanos = int64(e.T.Sub(l.start))
